@@ -127,6 +127,17 @@ def roles(repo) -> Roles:
     return r
 
 
+def checkpoint_closure(repo):
+    """The nested function of SMCSampler.sample that builds the checkpoint payload
+    (found by what it does, not by its name)."""
+    sample = repo.cls(SMC).methods.get("sample")
+    for f in sample.nested.values():
+        for n in ast.walk(f.node):
+            if isinstance(n, ast.Call) and isinstance(n.func, ast.Attribute) and n.func.attr == "build_checkpoint_state":
+                return f
+    return None
+
+
 def fold_sample(repo, concrete=None, resumed: bool | None = False, final: bool | None = False,
                 store_hist: bool | None = True, inline_mutate: bool = False, extra_no_inline=()):
     smc = repo.cls(SMC)
